@@ -25,7 +25,17 @@ class MISSING:
         self.node = node
 
 
+def _clause_id(text):
+    """stable identifier of an obligation: its text without numbers / quoted fragments, truncated"""
+    import re
+    t = re.sub(r"[0-9]+", "#", text or "")
+    t = re.sub(r"`[^`]*`", "`..`", t)
+    return t[:70]
+
+
 class Finding:
+    clause = ""
+
     def __init__(self, rule, func, stmt, message, loc, extra=None):
         self.rule = rule
         self.func = func
@@ -96,6 +106,7 @@ class Ctx:
             loc = func.loc(node) if not isinstance(func, str) else (
                 "%s:%d" % (module.rel, node.lineno) if module is not None else "")
         f = Finding(rule, fname, stmt, message, loc, extra)
+        f.clause = _clause_id(what or message)
         if any(g.key == f.key and g.message == f.message for g in self.findings):
             return f
         self.findings.append(f)
@@ -187,7 +198,11 @@ class Ctx:
         lost = {}
         for f in self.findings:
             miss = []
-            for q, nm in table.get(f.rule, []):
+            for ent in table.get(f.rule, []):
+                q, nm = ent[0], ent[1]
+                cl = ent[2] if len(ent) > 2 else None
+                if cl is not None and cl != getattr(f, "clause", ""):
+                    continue  # the anchor belongs to another clause of the rule
                 ids = idents(q)
                 if ids is None or nm not in ids:
                     miss.append("%s:%s" % (q.split("pydrobert.speech.")[-1], nm))
